@@ -1079,7 +1079,10 @@ def check_C04(tier, seed, replay=None):
                 g.recv = "c"
         fl2 = list(fl)
         if "-optimize-grammar" in fl:
-            fl2 += ["-alternate-entrypoints", ",".join(g.sname() for g in gs)]
+            # every group's entry rule, and every second other rule, stays usable as an entrypoint (several rules survive
+            # the optimizer and share what it inlined into them)
+            keep = [g.sname() for g in gs] + [g.rname(k) for g in gs for k in range(2, len(g.rules) + 1) if (g.gi + k) % 2 == 0]
+            fl2 += ["-alternate-entrypoints", ",".join(keep)]
         v = P.Variant(id(job) % 100000 + rng.randint(0, 10**6), name, gs, fl2, peg_text=txt)
         res = dict(job=job, v=v, stage="ok", err="")
         if not v.generate(pigeon):
